@@ -134,18 +134,31 @@ func encodeLength(out *bytes.Buffer, length int) (err error) {
 
 func readObject(ber []byte, offset int) (asn1Object, int, error) {
 	//fmt.Printf("\n====> Starting readObject at offset: %d\n\n", offset)
+	berLen := len(ber)
+	if offset < 0 || offset >= berLen {
+		return nil, 0, errors.New("ber2der: offset is after end of ber data")
+	}
 	tagStart := offset
 	b := ber[offset]
 	offset++
+	if offset >= berLen {
+		return nil, 0, errors.New("ber2der: cannot move offset forward, end of ber data reached")
+	}
 	tag := b & 0x1F // last 5 bits
 	if tag == 0x1F {
 		tag = 0
 		for ber[offset] >= 0x80 {
 			tag = tag*128 + ber[offset] - 0x80
 			offset++
+			if offset >= berLen {
+				return nil, 0, errors.New("ber2der: cannot move offset forward, end of ber data reached")
+			}
 		}
 		tag = tag*128 + ber[offset] - 0x80
 		offset++
+		if offset >= berLen {
+			return nil, 0, errors.New("ber2der: cannot move offset forward, end of ber data reached")
+		}
 	}
 	tagEnd := offset
 
@@ -167,6 +180,9 @@ func readObject(ber []byte, offset int) (asn1Object, int, error) {
 		if numberOfBytes > 4 { // int is only guaranteed to be 32bit
 			return nil, 0, errors.New("ber2der: BER tag length too long")
 		}
+		if offset+numberOfBytes > berLen {
+			return nil, 0, errors.New("ber2der: cannot read the length, end of ber data reached")
+		}
 		if numberOfBytes == 4 && (int)(ber[offset]) > 0x7F {
 			return nil, 0, errors.New("ber2der: BER tag length is negative")
 		}
@@ -175,9 +191,12 @@ func readObject(ber []byte, offset int) (asn1Object, int, error) {
 		}
 		//fmt.Printf("--> (compute length) indicator byte: %x\n", l)
 		//fmt.Printf("--> (compute length) length bytes: % X\n", ber[offset:offset+numberOfBytes])
-		for i := 0; i < numberOfBytes; i++ {
-			length = length*256 + (int)(ber[offset])
-			offset++
+		for _, lb := range ber[offset : offset+numberOfBytes] {
+			length = length*256 + (int)(lb)
+		}
+		offset += numberOfBytes
+		if length < 0 {
+			return nil, 0, errors.New("ber2der: BER tag length is negative")
 		}
 	} else if l == 0x80 {
 		indefinite = true
@@ -240,7 +259,7 @@ func readObject(ber []byte, offset int) (asn1Object, int, error) {
 }
 
 func isIndefiniteTermination(ber []byte, offset int) (bool, error) {
-	if len(ber)-offset < 2 {
+	if offset < 0 || len(ber)-offset < 2 {
 		return false, errors.New("ber2der: Invalid BER format")
 	}
 
